@@ -106,12 +106,24 @@ fn upd_verb(k: &str) -> &'static str {
 }
 
 /// one random abstract command; `present` biases towards objects that exist (so that removals/patches hit)
-fn random_command(r: &mut Rng, present: &Value) -> Value {
+/// another spelling of the certificate text in about half of the certificate commands (field `sp`, absent = standard)
+fn spell(r: &mut Rng, conc: &Conc, mut cmd: Value) -> Value {
+    if chance(r, 50) {
+        let sp = if chance(r, 85) { pick(r, &ALT_SPELLINGS) } else { pick(r, &BAD_SPELLINGS) };
+        let k = cmd["k"].as_str().unwrap().to_string();
+        if let Some(sp) = conc.effective_spelling(&k, sp) {
+            cmd["sp"] = json!(sp);
+        }
+    }
+    cmd
+}
+
+fn random_command(r: &mut Rng, conc: &Conc, present: &Value) -> Value {
     let existing = |r: &mut Rng, field: &str| -> Option<Value> {
         let a = present[field].as_array()?;
         if a.is_empty() || chance(r, 25) { None } else { Some(a[r.next(a.len())].clone()) }
     };
-    match r.next(22) {
+    match r.next(23) {
         0 | 1 => { let k = pick(r, &KINDS); let a = pick(r, &ADDRS); let v = listener_value(r, k, a); json!({"verb": add_verb(k), "v": with_answers(r, v, k)}) }
         2 => {
             let (k, a) = match existing(r, "lst") { Some(l) => (l["k"].as_str().unwrap().to_string(), l["a"].as_str().unwrap().to_string()),
@@ -140,11 +152,18 @@ fn random_command(r: &mut Rng, present: &Value) -> Value {
             None => { let p = pick(r, &["http", "https"]); let mut f = front(r, p); f["pos"] = json!("tree");
                       json!({"verb": if p == "http" { "RemoveHttpFrontend" } else { "RemoveHttpsFrontend" }, "f": f}) }
         },
-        17 | 18 => json!({"verb": "AddCertificate", "a": pick(r, &ADDRS[..4]), "k": pick(r, &["k1", "k2", "k3", "kp", "kb"]),
-                          "n": if chance(r, 60) { json!([]) } else { json!(["ov"]) }}),
+        17 | 18 => { let c = json!({"verb": "AddCertificate", "a": pick(r, &ADDRS[..4]), "k": pick(r, &["k1", "k2", "k3", "kp", "kb"]),
+                                   "n": if chance(r, 60) { json!([]) } else { json!(["ov"]) }});
+                     spell(r, conc, c) }
         19 => json!({"verb": "RemoveCertificate", "a": pick(r, &ADDRS[..4]), "fp": pick(r, &["k1", "k2", "k3", "kp", "nothex"])}),
-        20 => json!({"verb": "ReplaceCertificate", "a": pick(r, &ADDRS[..4]), "old": pick(r, &["k1", "k2", "k3", "kp", "nothex"]),
-                     "k": pick(r, &["k1", "k2", "k3", "kp", "kb"]), "n": if chance(r, 60) { json!([]) } else { json!(["ov"]) }}),
+        20 | 21 => {
+            // mostly a certificate that is there (a renewal), on an address that holds certificates
+            let (a, old) = match existing(r, "crt") { Some(x) => (x["a"].as_str().unwrap().to_string(), x["k"].as_str().unwrap().to_string()),
+                                                      None => (pick(r, &ADDRS[..4]).to_string(), pick(r, &["k1", "k2", "k3", "kp", "nothex"]).to_string()) };
+            let c = json!({"verb": "ReplaceCertificate", "a": a, "old": old,
+                           "k": pick(r, &["k1", "k2", "k3", "kp", "kb"]), "n": if chance(r, 60) { json!([]) } else { json!(["ov"]) }});
+            spell(r, conc, c)
+        }
         _ => {
             let p = pick(r, &["Tcp", "Udp"]);
             if let (Some(f), true) = (existing(r, "tfr"), chance(r, 35)) {
@@ -254,7 +273,7 @@ fn main() {
         seqno += 1;
         let mut present = conc.project(&st);
         for step in 0..steps {
-            let cmd = random_command(&mut rng, &present);
+            let cmd = random_command(&mut rng, &conc, &present);
             let mut req = conc.request(&cmd);
             widen(&mut req, &mut rng);
             let before = cfg_of(&st);
